@@ -35,6 +35,13 @@ func newEvidence(o *options, p *prepared) *evidence {
 		O2Cadence: map[string]uint64{}, Probes: map[string]uint64{}}
 }
 
+func simulatedTimeNote(e *evidence) string {
+	if e.p.Instr.UsesTime {
+		return fmt.Sprintf("the simulated clock advances 1 microsecond per step plus injected jumps: %d steps = %.1f simulated seconds, plus %d clock jumps of 1 s to 40 days", e.Steps, float64(e.Steps)/1e6, e.ClockJumps)
+	}
+	return "the library reads no clock and has no timers on this tree; progress is measured in simulated steps (one step = one library statement executed by the baton holder); a tree that imports package time gets a simulated clock (1 microsecond per step plus injected jumps)"
+}
+
 func clockNote(e *evidence) string {
 	if e.p.Instr.UsesTime {
 		return fmt.Sprintf("the library imports package time on this tree: the simulator owns the clock (ztime shim; %d clock reads, %d injected jumps); timers and sleeps are not virtualised", e.ClockReads, e.ClockJumps)
@@ -140,7 +147,7 @@ func (e *evidence) write(path string) error {
 	cov := map[string]interface{}{
 		"evaluations":         e.Runs,
 		"distinct_nontrivial": e.DistinctSigs,
-		"rule": "one evaluation = one simulated run = one PRNG seed (scenario: 2-6 caller tasks x 1-7 operations on shared/private expressions and drivers; then a schedule and fault sequence drawn from the same stream). " +
+		"rule": "one evaluation = one simulated run = one PRNG seed (scenario: 2-6 caller tasks x 1-14 operations on shared/private expressions and drivers, one of five workload shapes; then a schedule and fault sequence drawn from the same stream). " +
 			"Non-trivial = the run had at least one preemption INSIDE a library operation whose argument was at that moment also in use by another task that was itself inside an operation. " +
 			"Distinct = distinct 64-bit hashes of the sequence of (task preempted, site preempted at, task resumed) over the whole run, counted exactly (a set merged across all worker processes).",
 		"samples":                       samples,
@@ -153,7 +160,7 @@ func (e *evidence) write(path string) error {
 		"runs_per_hour":                 int64(runsPerHour),
 		"seeds_per_hour":                int64(runsPerHour),
 		"simulated_steps":               e.Steps,
-		"simulated_time":                "not applicable: the library reads no clock and has no timers; progress is measured in simulated steps (one step = one library statement executed by the baton holder)",
+		"simulated_time":                simulatedTimeNote(e),
 		"reference_pass_steps":          e.SoloSteps,
 		"context_switches":              e.Switches,
 		"preemptions_inside_operations": e.Preempts,
@@ -206,6 +213,17 @@ func (e *evidence) write(path string) error {
 				"fmt, strings, strconv, reflect, encoding/json, unicode (real standard library)", "Go runtime, garbage collector, race detector"},
 			"stubbed": []string{},
 			"harness": []string{"caller tasks", "user RenderFN callbacks (fault seam)", "seeded scheduler + inserted yields", "sync shim (only if the library imports sync)"},
+		},
+		"instrumentation": map[string]interface{}{
+			"statement_yields":   e.p.Instr.NumSites - e.p.Instr.ExitSites,
+			"exit_yields":        e.p.Instr.ExitSites,
+			"map_ranges_owned":   e.p.Instr.MapRanges,
+			"map_order_owned":    e.p.Instr.MapOrderOwned,
+			"typecheck_note":     e.p.Instr.TypeCheckNote,
+			"sync_shimmed":       e.p.Instr.UsesSync,
+			"atomic_shimmed":     e.p.Instr.UsesAtomic,
+			"clock_shimmed":      e.p.Instr.UsesTime,
+			"unowned_constructs": e.p.Instr.Unowned,
 		},
 		"instrumented_files":               e.p.Instr.Files,
 		"library_imports_of_outside_state": e.p.Instr.Notes,
